@@ -2036,15 +2036,19 @@ func (h *RequestHeader) peekAll(key []byte) [][]byte {
 			h.mulHeader = peekAllArgBytesToDst(h.mulHeader, h.h, key)
 		}
 	case HeaderContentLength:
-		h.mulHeader = append(h.mulHeader, h.contentLengthBytes)
+		if len(h.contentLengthBytes) > 0 {
+			h.mulHeader = append(h.mulHeader, h.contentLengthBytes)
+		}
 	case HeaderCookie:
-		if h.cookiesCollected {
-			h.mulHeader = append(h.mulHeader, appendRequestCookieBytes(nil, h.cookies))
-		} else {
+		if !h.cookiesCollected {
 			h.mulHeader = peekAllArgBytesToDst(h.mulHeader, h.h, key)
+		} else if len(h.cookies) > 0 {
+			h.mulHeader = append(h.mulHeader, appendRequestCookieBytes(nil, h.cookies))
 		}
 	case HeaderTrailer:
-		h.mulHeader = append(h.mulHeader, appendTrailerBytes(nil, h.trailer, strCommaSpace))
+		if len(h.trailer) > 0 {
+			h.mulHeader = append(h.mulHeader, appendTrailerBytes(nil, h.trailer, strCommaSpace))
+		}
 	default:
 		h.mulHeader = peekAllArgBytesToDst(h.mulHeader, h.h, key)
 	}
@@ -2084,11 +2088,17 @@ func (h *ResponseHeader) peekAll(key []byte) [][]byte {
 			h.mulHeader = peekAllArgBytesToDst(h.mulHeader, h.h, key)
 		}
 	case HeaderContentLength:
-		h.mulHeader = append(h.mulHeader, h.contentLengthBytes)
+		if len(h.contentLengthBytes) > 0 {
+			h.mulHeader = append(h.mulHeader, h.contentLengthBytes)
+		}
 	case HeaderSetCookie:
-		h.mulHeader = append(h.mulHeader, appendResponseCookieBytes(nil, h.cookies))
+		if len(h.cookies) > 0 {
+			h.mulHeader = append(h.mulHeader, appendResponseCookieBytes(nil, h.cookies))
+		}
 	case HeaderTrailer:
-		h.mulHeader = append(h.mulHeader, appendTrailerBytes(nil, h.trailer, strCommaSpace))
+		if len(h.trailer) > 0 {
+			h.mulHeader = append(h.mulHeader, appendTrailerBytes(nil, h.trailer, strCommaSpace))
+		}
 	default:
 		h.mulHeader = peekAllArgBytesToDst(h.mulHeader, h.h, key)
 	}
